@@ -528,6 +528,28 @@ func (fs *FS) begin(c *Call) {
 			}
 		}
 	}
+	// C09: no unsafe path component ever reaches the backend, and walks with
+	// a name are only asked of directories.
+	var comps []string
+	switch c.Method {
+	case "Walk", "WalkGetAttr":
+		comps = c.Names
+		if len(c.Names) > 0 && c.Kind != Dir && c.Kind != -1 {
+			fs.viol("C09", "walk-from-non-directory", c.Method, "%s asked to walk %q from a %s", c.Method, c.Names, c.Kind)
+		}
+		if len(c.Names) > 1 {
+			fs.viol("C09", "multi-component-backend-walk", c.Method, "%s asked to walk %d components at once: %q", c.Method, len(c.Names), c.Names)
+		}
+	case "Create", "Mkdir", "Mknod", "UnlinkAt", "Link", "Symlink", "Renamed":
+		comps = []string{c.Name}
+	case "RenameAt":
+		comps = []string{c.Name, c.Name2}
+	}
+	for _, n := range comps {
+		if n == "" || n == "." || n == ".." || strings.Contains(n, "/") {
+			fs.viol("C09", "unsafe-name-reached-backend", c.Method, "%s received path component %q", c.Method, n)
+		}
+	}
 	if !fs.NoOverlapCheck {
 		for _, o := range fs.active {
 			key := o.Method + "|" + c.Method
